@@ -236,3 +236,21 @@ Proof.
     destruct (from_decimal_div_err C HC Hten m (Z.to_nat (- e)) b Hm0 Hfit Hfs Hnz) as (Hb & Herr).
     rewrite Z2Nat.id in Herr by lia. split; [exact Hb | exact Herr].
 Qed.
+
+(* CLAUSE 4, printing, accumulated over the dividing loop of to_decimal: when the loop stops after j passes
+   the scaled den is below (exact value / 10^j) by less than 128 units of its last guard bit, i.e. less
+   than half a unit of the last mantissa bit *)
+Theorem to_decimal_div_loop_err F b : is_fmt F -> buf_ok (d_C F) b -> f_zero b = false ->
+  let C := d_C F in
+  exists e1 m1 j,
+    mbf_to_decimal_core_loop_103 1000 C b (c_lim_bot C) (c_lim_top C) (mbf_denormalise C (c_lim_top C))
+      (mbf_denormalise C (c_lim_bot C)) (mbf_denormalise C b) 0 = Ok ((e1, m1, f_neg C b), j) /\
+    mbf_abs_gt_den C (e1, m1, f_neg C b) (mbf_denormalise C (c_lim_top C)) = false /\
+    den_norm C m1 /\ 0 <= j <= 62 /\
+    10 ^ j * m1 <= 256 * f_man C b * 2 ^ (f_exp b - e1) < 10 ^ j * m1 + 128 * 10 ^ j.
+Proof.
+  intros HF Hb Hz. cbv zeta. destruct (fmt_ten F HF) as [HC Hten].
+  destruct HF as [->| ->]; cbn [d_C Single_fmt Double_fmt] in *.
+  - rewrite top_Single. apply (to_decimal_div_loop Single_consts HC Hten b 152 _ _ _ Hb Hz). lia.
+  - rewrite top_Double. apply (to_decimal_div_loop Double_consts HC Hten b 182 _ _ _ Hb Hz). lia.
+Qed.
